@@ -7,7 +7,9 @@ View:  subs   : token -> (callable, filter, lifetime)   the live subscriptions (
        live(n): multiset of callables registered for document name n = one entry per live token whose filter covers n
 A callable receives a document named n exactly once iff live(n) holds it at least once; nothing else receives it.
 Operations (a history is a list of these texts; `#i` is the i-th token handed out in the history, counted from 0):
-  subscribe <c> <filter>        Dispatcher.subscribe / RunEngine.subscribe (permanent)
+  subscribe <c> <filter>        Dispatcher.subscribe / RunEngine.subscribe (permanent); the call is written subscribe(c) for `f all`
+                                (default filter), subscribe(filter, c) for `g stop` (the argument order of before 0.10, still
+                                supported), subscribe(c, filter) otherwise  [subscribe_args]
   unsubscribe #i                Dispatcher.unsubscribe / RunEngine.unsubscribe of an issued token (live or already dead)
   unsubscribe unknown           ... of a token that was never handed out
   unsubscribe_all               Dispatcher.unsubscribe_all
@@ -19,6 +21,15 @@ Operations (a history is a list of these texts; `#i` is the i-th token handed ou
 DOCNAMES = ["start", "stop", "event", "descriptor", "event_page", "datum", "resource", "datum_page", "stream_resource", "stream_datum",
             "bulk_events", "bulk_datum"]
 UNKNOWN_TOKEN = 12345
+
+
+def subscribe_args(c, filt, callables):
+    """the three supported ways to write the call, spread over the menu"""
+    if c == "f" and filt == "all":
+        return (callables[c],)
+    if c == "g" and filt == "stop":
+        return (filt, callables[c])
+    return (callables[c], filt)
 
 
 def covers(filt, n):
